@@ -100,10 +100,14 @@ CLAIMED = {
         text="PARTIAL. TLC checks for 4 step densities, every history of <= 2 nested truncation windows over a lattice of end points with +-infinity and 0, orders 0..4 (0..5 thorough): the wrappers as written return the moment of the density restricted to the intersection of the windows (TruncatedIsRestriction, NestingIsIntersection), Additive over adjacent intervals, SignOfMoment, DensityVanishesOutside; the pinned deviation xn(n = 0) = integrate(a, a) (the code as found) must violate. Real TruncatedLevyMeasure wrappers (directly and through LevyModel.truncate_levy_measure, up to three nested) around step densities with exact-fraction moments are queried through integrate / _x / _xx / _xn: every value must equal the specification's exactly; orders 3, 4 reach the base class's quadrature (compared within 1e-4). Thin clauses: for HEM, Merton, VG and CGMY in all five activity branches at seeded parameters, every route on a 13-point lattice of end points (with -inf, 0, +inf), orders 0..4: closed form = scipy quadrature of x^n nu(x) (2e-6 relative), additivity, signs, truncated = restriction, truncated density.",
         note="NOT decided: parameter values, end points and orders outside the sampled ones - the equality of a special-function antiderivative with an integral over a continuum is judged only at sampled points, with scipy's quadrature as the trusted reference (DESIGN.md section 6). Known finding C09-fallback-halfline (generic quadrature over a half-line can miss a narrow jump law). Five defects repaired by fix: commits (known_findings.json).",
         ref="6 (C09)"),
+    "C18": dict(
+        technique="TLA+ spec Pricers.tla (the no-arbitrage relations of a ladder of European prices as predicates over integer vectors) model-checked by TLC on every small discrete law; price ladders recorded from the real COS / FFT / Black-Scholes pricers trace-validated by TLC against the same predicates with a stated tolerance",
+        text="THIN. TLC checks that for every discrete terminal law with weights 0..2 on {0..6} and six uniform strike ladders the exact prices satisfy call-put parity, intrinsic <= call <= discounted forward, monotonicity, convexity and the digital relations with tolerance 0 (the predicates are the right ones). For the exponential models of the documented box (HEM x2, Merton x2, VG, CGMY x2, Black-Scholes, VG written as CGMY) and maturities 0.1..2 (..3 thorough), the real COS call / put / forward / digital prices on a uniform ladder inside the truncation range are quantised (1e-7 spot) and TLC applies the same predicates within 3e-5 spot; COS = FFT (calls and puts), COS = Black-Scholes closed form (incl. digital and the degenerate branch = discounted intrinsic), VG = its CGMY parametrisation; scalar strike = vector entry and COSPricer.price / butterfly dispatch within 3e-7 spot; the implied density is >= -tol and integrates to one, and the cdf increments equal the density's mass.",
+        note="The accuracy of the pricers themselves is not decided: the reference of every clause is another pricer of the library, the closed form, or a relation between its own outputs; models, maturities and strikes are sampled from a documented box (DESIGN.md section 6). Two defects repaired (degenerate Black-Scholes digital with a scalar strike; COS cdf discounted).",
+        ref="6 (C18)"),
 }
 
 NOT_APPLICABLE = {
-    "C18": "accuracy and mutual consistency of COS / FFT / closed-form pricers: numerical-transform accuracy, explicitly the wrong target for model-based verification (DESIGN.md section 6)",
 }
 
 PENDING = "check not built yet in this round (planned, see DESIGN.md section 5)"
